@@ -522,7 +522,7 @@ def corpus():
 
 
 def check(run: Run, lean: dict) -> int:
-    n = 1200 if run.tier == "quick" else 30000
+    n = run.budget(1200, 30000)
     run.extra["rule"] = (
         "documents (parsed from text, or built through the API with prologue/epilogue filled by append/prepend/insert) with 0-5 "
         "comments/PIs before and after the root x encoding labels (utf-8, utf-16, iso-8859-1, ascii and case/alias variants; content "
